@@ -24,3 +24,5 @@ open TypifyModel.C01
 #print axioms TypifyModel.C01Findings.nullableDef_not_compiles
 #print axioms TypifyModel.C01Findings.tuple13_not_compiles
 #print axioms TypifyModel.C01Findings.setVec_not_compiles
+#print axioms TypifyModel.C01Findings.aliasCycle_not_compiles
+#print axioms TypifyModel.C01.wf_deref_finite
